@@ -674,7 +674,7 @@ func run(c *hc.Ctx) error {
 	}
 
 	// ---- (ii) checkMessageID
-	nChk := c.N(120000, 3000000)
+	nChk := c.N(120000, 2000000)
 	for i := 0; i < nChk; i++ {
 		now := genNow(r)
 		id := genID(r, now)
